@@ -48,7 +48,8 @@ impl_display_by_debug!(MonitorState);
 #[repr(C)]
 #[derive(Debug)]
 pub(crate) struct Monitor {
-    notify_queue: UnsafeCell<HashSet<NotifyNode>>,
+    // shared by every scheduling thread and the monitor thread
+    notify_queue: std::sync::Mutex<HashSet<NotifyNode>>,
     state: Cell<MonitorState>,
     thread: UnsafeCell<MaybeUninit<JoinHandle<()>>>,
     blocker: Arc<CondvarBlocker>,
@@ -57,7 +58,7 @@ pub(crate) struct Monitor {
 impl Default for Monitor {
     fn default() -> Self {
         Monitor {
-            notify_queue: UnsafeCell::default(),
+            notify_queue: std::sync::Mutex::default(),
             state: Cell::new(MonitorState::Created),
             thread: UnsafeCell::new(MaybeUninit::uninit()),
             blocker: Arc::default(),
@@ -176,10 +177,20 @@ impl Monitor {
     fn monitor_thread_main() {
         let monitor = Self::get_instance();
         Self::init_current(monitor);
-        let notify_queue = unsafe { &*monitor.notify_queue.get() };
-        while MonitorState::Running == monitor.state.get() || !notify_queue.is_empty() {
+        loop {
+            // take a snapshot under the lock, signal outside of it
+            let nodes: Vec<NotifyNode> = monitor
+                .notify_queue
+                .lock()
+                .unwrap_or_else(std::sync::PoisonError::into_inner)
+                .iter()
+                .copied()
+                .collect();
+            if MonitorState::Running != monitor.state.get() && nodes.is_empty() {
+                break;
+            }
             //只遍历，不删除，如果抢占调度失败，会在1ms后不断重试，相当于主动检测
-            for node in notify_queue {
+            for node in &nodes {
                 if now() < node.timestamp {
                     continue;
                 }
@@ -329,7 +340,6 @@ impl Monitor {
     fn submit(timestamp: u64) -> std::io::Result<NotifyNode> {
         let instance = Self::get_instance();
         instance.start()?;
-        let queue = unsafe { &mut *instance.notify_queue.get() };
         cfg_if::cfg_if! {
             if #[cfg(unix)] {
                 let node = NotifyNode {
@@ -345,15 +355,22 @@ impl Monitor {
                 };
             }
         }
-        _ = queue.insert(node);
+        _ = instance
+            .notify_queue
+            .lock()
+            .unwrap_or_else(std::sync::PoisonError::into_inner)
+            .insert(node);
         instance.blocker.notify();
         Ok(node)
     }
 
     fn remove(node: &NotifyNode) -> bool {
         let instance = Self::get_instance();
-        let queue = unsafe { &mut *instance.notify_queue.get() };
-        queue.remove(node)
+        instance
+            .notify_queue
+            .lock()
+            .unwrap_or_else(std::sync::PoisonError::into_inner)
+            .remove(node)
     }
 }
 
